@@ -461,7 +461,7 @@ func c05RunVariant(c *core.C, ctx context.Context, client bufcheck.Client, ws *c
 			}
 		}
 	}
-	lintAll := c.Rand.IntN(4) == 0 || len(x.Extra) > 0
+	lintAll := c.Rand.IntN(4) == 0 || len(x.Extra) > 0 || x.Opts != (c05LintOpts{})
 	var union []lintAnn
 	unionOK := true
 	anyStated := false
@@ -523,7 +523,14 @@ func c05RunVariant(c *core.C, ctx context.Context, client bufcheck.Client, ws *c
 	}
 
 	// ---- a sample through the CLI ---------------------------------------------------------------
-	if unionOK && len(x.Extra) == 0 && *cliBudget > 0 && c.Rand.IntN(12) == 0 {
+	// A plant whose verdict depends on a lint option always goes through the CLI as well: the library
+	// call above is handed the options directly, only the CLI reads them from buf.yaml (per version).
+	optsSet := x.Opts != (c05LintOpts{})
+	if optsSet && unionOK && len(x.Extra) == 0 {
+		c.Count("cli_comparisons_with_options", 1)
+		c.Distinct("cli_option_configs", version+"/"+x.Opts.String())
+		c05CLICompare(c, planted, pr, cfg, union, ctxKey, what, idx)
+	} else if unionOK && len(x.Extra) == 0 && *cliBudget > 0 && c.Rand.IntN(12) == 0 {
 		*cliBudget--
 		c05CLICompare(c, planted, pr, cfg, union, ctxKey, what, idx)
 	}
